@@ -57,6 +57,11 @@ func parseOp(s string) HOp {
 		case "h":
 			if v != "-" {
 				op.Hosts = strings.Split(v, ",")
+				for i, h := range op.Hosts {
+					if h == "-" {
+						op.Hosts[i] = "" // the default host inside a list
+					}
+				}
 			}
 		case "p":
 			op.Paths = strings.Split(v, ",")
